@@ -997,7 +997,20 @@ class Interp:
                 parts.append(str(v.value))
             else:
                 try:
-                    parts.append(self.to_str(self.eval(v.value, frame)))
+                    val = self.eval(v.value, frame)
+                    spec = None
+                    if isinstance(v, ast.FormattedValue) and v.format_spec is not None:
+                        spec = self._e_JoinedStr(v.format_spec, frame) if isinstance(v.format_spec, ast.JoinedStr) else str(v.format_spec)
+                    if spec and FORMAT_HOOK is not None and isinstance(val, (STensor, Rat, Fraction, int)) and not isinstance(val, bool) \
+                            and not (isinstance(val, STensor) and val.ndim > 0):
+                        parts.append(FORMAT_HOOK(val, spec))
+                    elif spec and isinstance(val, (int, Fraction)) and not isinstance(val, bool):
+                        try:
+                            parts.append(format(val if isinstance(val, int) else float(val), spec))
+                        except (ValueError, TypeError):
+                            parts.append(self.to_str(val))
+                    else:
+                        parts.append(self.to_str(val))
                 except (Unsupported, InterpError):
                     parts.append("?")
         return "".join(parts)
@@ -1766,6 +1779,7 @@ def _range(*a):
 
 
 EXTERNAL_ISINSTANCE: Dict[str, Callable[[Any], bool]] = {}
+FORMAT_HOOK = None  # optional: format(number, spec) in the text-header model
 STR_HOOK = None  # optional: str() of numbers in the numpy/text-header model (sa/iomodel.py)
 
 
